@@ -52,7 +52,13 @@ def fixed_width_band_ci(
         bounds of the confidence band values for both metric values.
     """
     thresholds = _find_support_thresholds(
-        scores=scores, fnr=fnr, fpr=fpr, thresholds=thresholds, nb_points=nb_points
+        scores=scores,
+        fnr=fnr,
+        fpr=fpr,
+        thresholds=thresholds,
+        nb_points=nb_points,
+        nb_extra_points=None,
+        x_axis="fnr",
     )
     fnr = scores.fnr(thresholds)
     fpr = scores.fpr(thresholds)
@@ -185,7 +191,13 @@ def simultaneous_joint_region_ci(
         bounds of the confidence band values for both metric values.
     """
     thresholds = _find_support_thresholds(
-        scores=scores, fnr=fnr, fpr=fpr, thresholds=thresholds, nb_points=nb_points
+        scores=scores,
+        fnr=fnr,
+        fpr=fpr,
+        thresholds=thresholds,
+        nb_points=nb_points,
+        nb_extra_points=None,
+        x_axis="fnr",
     )
     fnr = scores.fnr(thresholds)
     fpr = scores.fpr(thresholds)
@@ -237,7 +249,13 @@ def pointwise_band_ci(
         bounds of the confidence band values for both metric values.
     """
     thresholds = _find_support_thresholds(
-        scores=scores, fnr=fnr, fpr=fpr, thresholds=thresholds, nb_points=nb_points
+        scores=scores,
+        fnr=fnr,
+        fpr=fpr,
+        thresholds=thresholds,
+        nb_points=nb_points,
+        nb_extra_points=None,
+        x_axis="fnr",
     )
     fnr = scores.fnr(thresholds)
     fpr = scores.fpr(thresholds)
